@@ -100,6 +100,8 @@ type fnEnc struct {
 	curHeap  heapState
 	retCount int
 	deferred []*ssa.Defer
+	deferInfos []deferInfo
+	inRecover bool
 	lits     map[string][]string
 	litVals  map[string][]ssa.Value
 	localArrV map[*ssa.Alloc]map[int]ssa.Value
@@ -406,6 +408,14 @@ func (e *fnEnc) writesOf(in ssa.Instruction) []string {
 				if c.External {
 					return nil
 				}
+				if f := e.V.P.Funcs[key]; f != nil {
+					var out []string
+					for k := range e.V.inferredWrites(f) {
+						out = append(out, k)
+					}
+					sort.Strings(out)
+					return out
+				}
 				return []string{"*"}
 			}
 			if callee := cc.StaticCallee(); inRepo(e.V, callee) {
@@ -662,6 +672,7 @@ func (V *Verifier) encode(fn *ssa.Function) (enc *fnEnc, err error) {
 			}
 		}
 	}
+	e.recoverBlock()
 	return e, nil
 }
 
